@@ -126,6 +126,7 @@ type Job struct {
 	NestIn       *Input        `json:"nest_in,omitempty"`
 	NestExpect   string        `json:"nest_expect,omitempty"`
 	TokMethods   bool          `json:"tok_methods,omitempty"` // c03: actions call the tokens' convenience methods
+	NoExpect     bool          `json:"no_expect,omitempty"`   // c03: an input that is not a sentence: if Parse nevertheless succeeds (error recovery), only the attribute-identity clauses are judged
 	Schedule     gsim.Schedule `json:"schedule,omitempty"`
 }
 
@@ -425,9 +426,71 @@ func (e *env) newLexFor(in *Input, ctx interface{}) Lexer {
 // name is a function of the text, so a used and a fresh lexer see the same path.
 func (e *env) lexerFor(text string, fromFile bool) Lexer { return e.lexerForSp(text, fromFile, 0) }
 
+// guarded source buffers: the lexer gets buf[:n] of a buffer that continues with
+// guard bytes it does not own (cap > len, as with any sub-slice of a larger
+// buffer).  Nothing may ever write there.
+const guardLen = 24
+
+type guarded struct {
+	buf []byte
+	n   int
+}
+
+// The table of guarded buffers is written by whichever task is running (exactly
+// one at a time under the cooperative scheduler).  It is kept out of the race
+// detector's sight (no instrumentation, no synchronisation that would order the
+// tasks): a fixed array and a plain counter in //go:norace functions.
+var (
+	guardTab [1 << 14]guarded
+	guardN   int
+)
+
+//go:norace
+func recordGuard(g guarded) {
+	if guardN < len(guardTab) {
+		guardTab[guardN] = g
+		guardN++
+	}
+}
+
+//go:norace
+func takeGuards() []guarded {
+	out := append([]guarded(nil), guardTab[:guardN]...)
+	for i := 0; i < guardN; i++ {
+		guardTab[i] = guarded{}
+	}
+	guardN = 0
+	return out
+}
+
+func newGuardedSrc(text string) []byte {
+	if gsim.FreeMode() {
+		return []byte(text) // the guard table is not safe for really parallel tasks
+	}
+	buf := make([]byte, len(text)+guardLen)
+	copy(buf, text)
+	for i := len(text); i < len(buf); i++ {
+		buf[i] = 0xEE
+	}
+	recordGuard(guarded{buf, len(text)})
+	return buf[:len(text)]
+}
+
+// guardsIntact reports the first guard that was written to, and forgets the buffers.
+func guardsIntact() string {
+	for _, g := range takeGuards() {
+		for i := g.n; i < len(g.buf); i++ {
+			if g.buf[i] != 0xEE {
+				return fmt.Sprintf("the generated code wrote byte %#x at offset %d of a %d-byte source buffer, i.e. beyond the slice it was given", g.buf[i], i, g.n)
+			}
+		}
+	}
+	return ""
+}
+
 func (e *env) lexerForSp(text string, fromFile bool, spelling int) Lexer {
 	if !fromFile {
-		return e.g.NewLexer([]byte(text))
+		return e.g.NewLexer(newGuardedSrc(text))
 	}
 	dir := os.Getenv("VERIF_SRCDIR")
 	if dir == "" {
@@ -516,6 +579,9 @@ func Main(glues map[string]Glue) {
 		} else {
 			before := raceLogSize(raceLog)
 			runJob(g, j, res)
+			if d := guardsIntact(); d != "" {
+				res.Violations = append(res.Violations, Viol{Class: "wrote-outside-source", Detail: d})
+			}
 			if after := raceLogSize(raceLog); after != before {
 				res.Race = true
 				res.RaceText = raceLogRead(raceLog, before, after)
